@@ -214,6 +214,7 @@ def add_lookups(q, p=0.6):
                     src[1]["lookup"] = lk
             elif src[0] == "t" and len(src) == 2 and src[1][2] is not None and not src[1][0].startswith("#"):
                 if r.random() < p / 3:
+                    lk["refine"] = "as"          # (a table has no other refining call)
                     src.append({"lookup": lk})
     return q
 
